@@ -1006,6 +1006,17 @@ def m_str_rstrip(eng, recv, n, st):
     return Val(eng.uf("rstrip", [STR], STR)(recv.t), STR)
 
 
+def m_str_rsplit(eng, recv, n, st):
+    """s.rsplit(":", 1): split at the LAST colon - an uninterpreted function yielding 1 or 2 parts"""
+    a = eng.ev(n.args[0], st) if n.args else None
+    if len(n.args) == 2 and isinstance(n.args[1], ast.Constant) and n.args[1].value == 1 and a is not None \
+            and z3.is_int_value(z3.simplify(a.t)) and z3.simplify(a.t).as_long() == str_code(":"):
+        v = Val(eng.uf("rsplit_colon_1", [STR], LINE)(recv.t), LINE)
+        st.assume(z3.And(LINE.len(v.t) >= 1, LINE.len(v.t) <= 2))
+        return v
+    raise Unsupported("str.rsplit form at line %s" % n.lineno)
+
+
 def m_str_strip(eng, recv, n, st):
     if n.args:
         raise Unsupported("strip with arguments at line %s" % n.lineno)
@@ -1096,7 +1107,7 @@ def m_linesink_write(eng, recv, n, st):
 
 METHODS = {
     ("ObjT", "write"): m_linesink_write,
-    ("ListT", "write"): m_sink_write, ("ListT", "put"): m_sink_write, ("ListT", "tell"): m_sink_tell, ("StrT", "rstrip"): m_str_rstrip, ("StrT", "strip"): m_str_strip, ("StrT", "isdigit"): m_str_isdigit, ("StrT", "replace"): m_str_replace,
+    ("ListT", "write"): m_sink_write, ("ListT", "put"): m_sink_write, ("ListT", "tell"): m_sink_tell, ("StrT", "rstrip"): m_str_rstrip, ("StrT", "strip"): m_str_strip, ("StrT", "rsplit"): m_str_rsplit, ("StrT", "isdigit"): m_str_isdigit, ("StrT", "replace"): m_str_replace,
     ("StrT", "decode"): m_str_decode, ("StrT", "split"): m_str_split_tab,
     ("StrT", "startswith"): b_startswith,
     ("ListT", "pop"): m_list_pop, ("ListT", "remove"): m_list_remove,
